@@ -160,7 +160,9 @@ func vc11SeqEq(a, b []string) bool {
 // text with ParsePath yields the original path. abs=1 parses "/"+text (what
 // StripPathElemPrefix produces and what clients send), abs=0 the bare text.
 func VerifXPathRoundTrip() {
-	shape := verifrt.Choice("shape", vc11Shapes-1) // shape 6 adds nothing over 2 here
+	// shapes are ordered by text length; the tier chooses how many are covered
+	// (shape 6 adds nothing over 2 here)
+	shape := verifrt.Choice("shape", verifrt.Param("shapes", 4))
 	abs := verifrt.Choice("abs", 2)
 	p := vc11Path("p", shape)
 	s := ToXPath(p, false)
@@ -194,7 +196,7 @@ func VerifXPathRoundTrip() {
 // documents it: '[' and ']' inside a value are escaped with a backslash. This is
 // the most a client can do; the round trip must then hold for every value.
 func VerifXPathEscapedRoundTrip() {
-	shape := 1 + verifrt.Choice("shape", 3)
+	shape := 1 + verifrt.Choice("shape", verifrt.Param("shapes", 4)-1)
 	p := vc11Path("p", shape)
 	sb := strings.Builder{}
 	for _, pe := range p.Elem {
@@ -222,7 +224,7 @@ func VerifXPathEscapedRoundTrip() {
 // index sequence agree: CompletePathFromString(text) == ToStrings(ParsePath(text)),
 // and for a printed instance path both equal ToStrings of the original.
 func VerifCompletePathFromString() {
-	shape := verifrt.Choice("shape", vc11Shapes-1)
+	shape := verifrt.Choice("shape", verifrt.Param("shapes", 4))
 	p := vc11Path("p", shape)
 	s := "/" + ToXPath(p, false)
 	want := ToStrings(p, false, false)
